@@ -374,6 +374,18 @@ func checkC08(c c08Case) *evid.Fail {
 			}
 		}
 	}
+	if want.Special == 0 && err == nil {
+		if f := aliasProbe(v, args, func() (*variants.Variant, error, *evid.Fail) {
+			var v2 *variants.Variant
+			var err2 error
+			g := guard(func() { v2, err2 = f.Calculate(args, ops) })
+			return v2, err2, g
+		}); f != nil {
+			f.Sig += ":" + lname
+			f.Msg = desc + ": " + f.Msg
+			return f
+		}
+	}
 	// the same call through an expression gives the same outcome ('Null' is a keyword there)
 	if lname != "null" && len(c.Args) <= 8 {
 		var names []string
@@ -399,6 +411,18 @@ func checkC08(c c08Case) *evid.Fail {
 			return evid.F("neither-result-nor-error:expression:"+lname, "expression %q returned (nil, nil)", expr)
 		}
 		deterministic := want.Special == 0
+		// the parsed expression is evaluated a second time: a call consumes nothing of the compiled program
+		if deterministic {
+			var ev2 *variants.Variant
+			var eerr2 error
+			if g := guard(func() { ev2, eerr2 = calc.EvaluateUsingVariables(makeVars(bs)) }); g != nil {
+				g.Msg = fmt.Sprintf("second evaluation of %q with %v: %s", expr, bs, g.Msg)
+				return g
+			}
+			if resultRepr(ev2, eerr2) != resultRepr(ev, eerr) {
+				return evid.F("second-evaluation-differs:"+lname, "expression %q with %v: first evaluation %s, second evaluation of the same parsed expression %s", expr, bs, resultRepr(ev, eerr), resultRepr(ev2, eerr2))
+			}
+		}
 		if (eerr == nil) != (err == nil) || (deterministic && eerr == nil && !equalVal(fromVariant(ev), got)) {
 			return evid.F("direct-vs-expression:"+lname, "%s: direct call gives %s, expression %q gives %s", desc, resultRepr(v, err), expr, resultRepr(ev, eerr))
 		}
@@ -564,3 +588,69 @@ func TestC08_EnumRandomRange(t *testing.T) {
 		rec.Case(fmt.Sprintf("worker %d", w), true, func() interface{} { return fmt.Sprintf("%s() x %d", c.Name, perWorker) })
 	}
 }
+
+// Every default collection is its caller's own: removing, adding or clearing functions in one collection leaves
+// the collections created before and after it complete (37 functions, same order, every name resolvable).
+func TestC08_EnumCollectionIsolation(t *testing.T) {
+	rec := evid.New("C08", "TestC08_EnumCollectionIsolation", "C08.isolation", "one default function collection is modified (Remove(i) for every i, RemoveByName for every name, Add of a user function, Clear); a collection created before and one created after must still hold all 37 default functions in order, every one found by name in any letter case; non-trivial = all; distinct by operation")
+	rec.Exhaustive = true
+	rec.DupFree = true
+	defer finish(t, rec)
+	var ops []string
+	for i := range c08Names {
+		ops = append(ops, fmt.Sprintf("remove:%d", i), "removebyname:"+c08Names[i])
+	}
+	ops = append(ops, "add", "clear", "add-remove-first")
+	rec.Bounds = fmt.Sprintf("%d operations", len(ops))
+	for _, op := range ops {
+		rec.Case(op, true, func() interface{} { return op })
+		if f := checkC08Isolation(op); f != nil {
+			rec.Fail(f, op)
+		}
+	}
+}
+
+func checkC08Isolation(op string) *evid.Fail {
+	var res *evid.Fail
+	if g := guard(func() {
+		before := functions.NewDefaultFunctionCollection()
+		a := functions.NewDefaultFunctionCollection()
+		user := functions.NewDelegatedFunction("UserFn", func(p []*variants.Variant, o variants.IVariantOperations) (*variants.Variant, error) {
+			return variants.VariantFromInteger(1), nil
+		})
+		switch {
+		case strings.HasPrefix(op, "remove:"):
+			var i int
+			fmt.Sscanf(op, "remove:%d", &i)
+			a.Remove(i)
+		case strings.HasPrefix(op, "removebyname:"):
+			a.RemoveByName(strings.ToUpper(strings.TrimPrefix(op, "removebyname:")))
+		case op == "add":
+			a.Add(user)
+		case op == "clear":
+			a.Clear()
+		default:
+			a.Add(user)
+			a.Remove(0)
+		}
+		after := functions.NewDefaultFunctionCollection()
+		for which, col := range map[string]*functions.DefaultFunctionCollection{"created before": before, "created after": after} {
+			if col.Length() != len(c08Names) {
+				res = evid.F("collection-shared:length", "after %s on another collection, a default collection %s has %d functions, not %d", op, which, col.Length(), len(c08Names))
+				return
+			}
+			for i, n := range c08Names {
+				f := col.FindByName(strings.ToLower(n))
+				if f == nil || !strings.EqualFold(f.Name(), n) || col.FindIndexByName(n) != i || !strings.EqualFold(col.Get(i).Name(), n) {
+					res = evid.F("collection-shared:contents", "after %s on another collection, a default collection %s no longer has %s at position %d", op, which, n, i)
+					return
+				}
+			}
+		}
+	}); g != nil {
+		return g
+	}
+	return res
+}
+
+func init() { regReplay("C08.isolation", checkC08Isolation) }
